@@ -307,6 +307,13 @@ class OperatorNode(ASTNode):
                           .replace('_R_', '_REF_')
                           .replace('_C_', '_REF_')
                           )
+            if all(type(arg) is RangeNode for arg in args):
+                # both references are written, the union (which covers more
+                # cells than the two of them) is known, and so are the cells
+                # the formula needs
+                union = eval(ss[4:-1], {'_REF_': AddressRange.create})
+                if union not in ERROR_CODES:
+                    ss = '_R_("{}")'.format(union.replace('"', '\\"'))
         else:
             if op != ',':
                 op = ' ' + op
